@@ -218,7 +218,7 @@ def expected_observation(spec):
 # edits
 # ------------------------------------------------------------------------------------------------
 
-TEXTS = ["Fedora", "Red Hat  Enterprise Linux", "MiXed Case", "Näme 日本", "a=b:c #d ;e [f]"]
+TEXTS = ["Fedora", "Red Hat  Enterprise Linux", "MiXed Case", "Näme 日本", "a=b:c #d ;e [f]", "100% %(name)s %%"]
 VERSIONS = ["21", "7.0", "2.1.3", "Rawhide"]
 TIMESTAMPS = [1, 123456, 2 ** 33]
 PLATFORM_POOL = ["xen", "efi", "ppc64le"]
